@@ -234,3 +234,84 @@ Proof. split; [reflexivity|]. exists [], [EvW 0 Fclockid; EvW 0 Fapp; EvW 0 Fpid
 
 Example C11_ex_conformant : conformant [ProcInit :: ex_tracer 7 10; [ProcInit]; ex_tracer 8 20].
 Proof. intros p [<-|[<-|[<-|[]]]]; reflexivity. Qed.
+
+(* ==== call expansions from source (unit rtconc) ==== *)
+(* The process-state skeleton of the API functions of src/rt/ovni.c is regenerated on every run into Gen/RtConc_gen.v
+   (translate/units/rtconc.py, from the clang AST) over the trace monad of Rt/RtConcPre.v: a generated function denotes,
+   for a `world` (what every operation on rproc.st observes, whether OVNI_TMPDIR is set, the outcome of every opaque
+   condition and opaque statement), the list of shared actions it performs in program order - SCas e d / SLoad /
+   SStore v on rproc.st, SW f / SR f on the plain fields - and how it ends (Next, Died, Returned).  ovni_proc_init,
+   ovni_proc_fini, ovni_thread_init, ovni_thread_free, ovni_thread_isready and the functions they reach that touch
+   rproc are rendered whole; of every other exported function the process-state preamble is rendered and the rest is
+   checked, on the AST, never to mention rproc.st.  `model_run w 0 [] l` reads the model's expansion l the same way
+   (RtConcDefs.tstep: a CAS / load that does not observe the value it wants is where the thread dies).
+   Proofs: Proofs/RtConcGenProofs.v. *)
+From OV Require Rt.RtConcPre Gen.RtConc_gen Proofs.RtConcGenProofs.
+Module CP := RtConcPre.
+Module CG := RtConc_gen.
+Module CGP := RtConcGenProofs.
+
+(* for every call kind: in every world where the opaque code neither dies nor takes a guarded exit, the generated
+   function performs exactly the shared actions of `expand` - same st operations in the same order, same field
+   reads / writes between them - and dies exactly where the model's thread dies *)
+Theorem C11_call_expansions_from_source : forall w, CP.straight w ->
+  CP.run CG.ovni_proc_init w = CP.model_run w 0 [] (expand (CP.w_mv w) ProcInit) /\
+  CP.run CG.ovni_proc_fini w = CP.model_run w 0 [] (expand (CP.w_mv w) ProcFini) /\
+  (forall tid, CP.run CG.ovni_thread_init w = CP.model_run w 0 [] (expand (CP.w_mv w) (ThreadInit tid))) /\
+  CP.run CG.ovni_thread_free w = CP.model_run w 0 [] (expand (CP.w_mv w) ThreadFree) /\
+  (* the other exported functions, in the order of CG.preambles, with their call kinds: the operations on rproc.st *)
+  Forall (fun gk => CP.run (fst gk) w = CP.model_run w 0 [] (CGP.st_ops (CP.w_mv w) (snd gk)))
+         (combine CG.preambles CGP.kinds).
+Proof.
+  intros w S. split; [exact (CGP.proc_init_expansion w S)|]. split; [exact (CGP.proc_fini_expansion w S)|].
+  split; [exact (fun tid => CGP.thread_init_expansion w tid S)|]. split; [exact (CGP.thread_free_expansion w S)|].
+  exact (CGP.preamble_expansions w S).
+Qed.
+Print Assumptions C11_call_expansions_from_source.
+
+(* in EVERY world (the opaque code may die, return early, take either side of any condition): the shared actions the
+   generated function performs are a prefix, in order, of the model's expansion *)
+Theorem C11_call_prefixes_from_source : forall w,
+  CP.is_prefix (fst (CP.run CG.ovni_proc_init w)) (CGP.shared (expand (CP.w_mv w) ProcInit)) = true /\
+  CP.is_prefix (fst (CP.run CG.ovni_proc_fini w)) (CGP.shared (expand (CP.w_mv w) ProcFini)) = true /\
+  (forall tid, CP.is_prefix (fst (CP.run CG.ovni_thread_init w)) (CGP.shared (expand (CP.w_mv w) (ThreadInit tid))) = true) /\
+  CP.is_prefix (fst (CP.run CG.ovni_thread_free w)) (CGP.shared (expand (CP.w_mv w) ThreadFree)) = true.
+Proof.
+  intros w. split; [exact (CGP.proc_init_prefix w)|]. split; [exact (CGP.proc_fini_prefix w)|].
+  split; [exact (fun tid => CGP.thread_init_prefix w tid) | exact (CGP.thread_free_prefix w)].
+Qed.
+Print Assumptions C11_call_prefixes_from_source.
+
+Theorem C11_generated_init_dies_at_cas : forall w, CP.straight w -> CP.w_obs w 0 <> UNINIT ->
+  CP.run CG.ovni_proc_init w = ([CP.SCas UNINIT INIT], CP.Died).
+Proof. exact CGP.proc_init_dies_at_cas. Qed.
+Print Assumptions C11_generated_init_dies_at_cas.
+
+Theorem C11_generated_thread_init_dies_at_load : forall w, CP.straight w -> CP.w_obs w 0 <> READY ->
+  CP.run CG.ovni_thread_init w = ([CP.SLoad], CP.Died).
+Proof. exact CGP.thread_init_dies_at_load. Qed.
+Print Assumptions C11_generated_thread_init_dies_at_load.
+
+Theorem C11_isready_touches_no_process_state : forall w, CP.run CG.ovni_thread_isready w = ([], CP.Returned).
+Proof. exact CGP.thread_isready_no_state. Qed.
+Print Assumptions C11_isready_touches_no_process_state.
+
+(* non-vacuity, by computation on the generated code *)
+Definition rc_world (o0 : pst) (mv : bool) : CP.world :=
+  {| CP.w_obs := fun k => match k with O => o0 | _ => READY end; CP.w_mv := mv;
+     CP.w_cond := fun _ => false; CP.w_die := fun _ => false |}.
+
+Example C11_ex_generated_expansions :
+  CP.run CG.ovni_proc_init (rc_world UNINIT true) =
+    ([CP.SCas UNINIT INIT; CP.SW Floom; CP.SW Fpid; CP.SW Fapp; CP.SW Fclockid; CP.SW Floomdir; CP.SW Ftmpdir; CP.SW Fmove;
+      CP.SW Fprocdir; CP.SW Fprocdir_final; CP.SStore READY], CP.Next) /\
+  CP.run CG.ovni_proc_init (rc_world READY false) = ([CP.SCas UNINIT INIT], CP.Died) /\
+  CP.run CG.ovni_proc_fini (rc_world READY false) = ([CP.SCas READY GONE; CP.SR Fmove], CP.Next) /\
+  CP.run CG.ovni_proc_fini (rc_world GONE true) = ([CP.SCas READY GONE], CP.Died) /\
+  CP.run CG.ovni_thread_init (rc_world READY false) =
+    ([CP.SLoad; CP.SR Fprocdir; CP.SR Fmove; CP.SR Fprocdir; CP.SR Fpid; CP.SR Floom; CP.SR Fapp; CP.SR Fprocdir], CP.Next) /\
+  CP.run CG.ovni_thread_init (rc_world INIT false) = ([CP.SLoad], CP.Died) /\
+  CP.run CG.ovni_thread_free (rc_world READY true) = ([CP.SR Fprocdir; CP.SR Fmove], CP.Next) /\
+  CP.straight (rc_world UNINIT true).
+Proof. vm_compute. repeat split. Qed.
+(* ==== end of block (unit rtconc) ==== *)
